@@ -1,11 +1,137 @@
 import SageModel.Proto
+import SageModel.Model.C01
 
-/-! Driver ops for C01 (stub: no ops yet). -/
+/-! Driver op for C01.
+
+`e2e <cfg…> <fasta…> <files…> <planted…> | ok <tsv rows…> <pin rows…> <fragment rows…>`
+
+There is no model reply to compare with (the model of the whole pipeline is the composition of
+the other properties' models); the op evaluates the executable specification `RowOK` and the
+cross-row / cross-file clauses on the rows the real program wrote. -/
 namespace Sage.C01
 open Sage.Proto
 
+def pF32R : P Rat := do
+  let b ← nat
+  pure (f32val b)
+
+def pTol : P Tol := do
+  let k ← nat
+  let lo ← pF32R
+  let hi ← pF32R
+  pure { kind := k, lo := lo, hi := hi }
+
+def pCfg : P Cfg := do
+  let cleave ← bytes
+  let restrict ← opt nat
+  let cterm ← bool
+  let semi ← bool
+  let mc ← nat
+  let minLen ← nat
+  let maxLen ← nat
+  let minMass ← pF32R
+  let maxMass ← pF32R
+  let statics ← list (do let k ← bytes; let m ← nat; pure (k, m))
+  let vars ← list (do let k ← bytes; let ms ← list nat; pure (k, ms))
+  let maxVar ← nat
+  let decoyTag ← bytes
+  let genDecoys ← bool
+  let ptol ← pTol
+  let ftol ← pTol
+  let isoLo ← int
+  let isoHi ← int
+  let zLo ← nat
+  let zHi ← nat
+  let reportPsms ← nat
+  let chimera ← bool
+  let minPeaks ← nat
+  let maxPeaks ← nat
+  let minMatched ← nat
+  let maxFragCharge ← opt nat
+  let deisotope ← bool
+  let annotate ← bool
+  let pin ← bool
+  let predictRt ← bool
+  let batch ← nat
+  let bucket ← nat
+  let minIonIndex ← nat
+  pure { cleave, restrict := restrict.map (·.toUInt8), cterm, semi, mc, minLen, maxLen, minMass, maxMass, statics, vars,
+         maxVar, decoyTag, genDecoys, ptol, ftol, isoLo, isoHi, zLo, zHi, reportPsms, chimera, minPeaks, maxPeaks,
+         minMatched, maxFragCharge, deisotope, annotate, pin, predictRt, batch, bucket, minIonIndex }
+
+def pSpectrum : P Spectrum := do
+  let title ← bytes
+  let pepmz ← nat
+  let charge ← opt nat
+  let rt ← nat
+  let peaks ← list (do let a ← nat; let b ← nat; pure (a, b))
+  pure { title, pepmz, charge, rt, peaks }
+
+def pRun : P Run := do
+  let cfg ← pCfg
+  let fasta ← list (do let a ← bytes; let s ← bytes; pure (a, s))
+  let files ← list (list pSpectrum)
+  let planted ← list (do let f ← nat; let t ← bytes; let p ← bytes; pure ({ file := f, title := t, peptide := p } : Planted))
+  pure { cfg, fasta, files, planted }
+
+def pRow : P Row := do
+  let psmId ← nat; let peptide ← bytes; let proteins ← bytes; let numProteins ← nat
+  let filename ← bytes; let scannr ← bytes; let rank ← nat; let label ← int
+  let expmass ← nat; let calcmass ← nat; let charge ← nat; let peptideLen ← nat
+  let missedCleavages ← nat; let semiEnzymatic ← nat; let isotopeError ← nat; let precursorPpm ← nat
+  let fragmentPpm ← nat; let hyperscore ← nat; let deltaNext ← nat; let deltaBest ← nat; let rt ← nat
+  let matchedPeaks ← nat; let longestB ← nat; let longestY ← nat; let scoredCandidates ← nat; let poisson ← nat
+  let discriminant ← nat; let posteriorError ← nat; let spectrumQ ← nat; let peptideQ ← nat
+  let proteinQ ← nat; let ms2Intensity ← nat; let matchedIntensityPct ← nat
+  pure { psmId, peptide, proteins, numProteins, filename, scannr, rank, label, expmass, calcmass, charge, peptideLen,
+         missedCleavages, semiEnzymatic, isotopeError, precursorPpm, fragmentPpm, hyperscore, deltaNext, deltaBest, rt,
+         matchedPeaks, longestB, longestY, scoredCandidates, poisson, discriminant, posteriorError, spectrumQ, peptideQ,
+         proteinQ, ms2Intensity, matchedIntensityPct }
+
+def pPin : P PinRow := do
+  let specId ← nat; let label ← int; let scanNr ← bytes; let expMass ← nat; let calcMass ← nat; let fileName ← bytes
+  let rank ← nat; let z2 ← nat; let z3 ← nat; let z4 ← nat; let z5 ← nat; let z6 ← nat; let zOther ← nat
+  let peptideLen ← nat; let missedCleavages ← nat; let peptide ← bytes; let proteins ← bytes
+  pure { specId, label, scanNr, expMass, calcMass, fileName, rank, z2, z3, z4, z5, z6, zOther, peptideLen,
+         missedCleavages, peptide, proteins }
+
+def pFrag : P FragRow := do
+  let psmId ← nat; let kind ← bytes; let ordinal ← int; let charge ← int
+  let mzCalc ← nat; let mzExp ← nat; let intensity ← nat
+  pure { psmId, kind, ordinal, charge, mzCalc, mzExp, intensity }
+
+def firstSome {α} (l : List α) (f : α → Option String) : Option String := l.findSome? f
+
+def verdict (run : Run) (impl : List String) : String :=
+  match impl with
+  | "ok" :: rest =>
+    match runPrefix (do let r ← list pRow; let p ← list pPin; let f ← list pFrag; pure (r, p, f)) rest with
+    | some ((rows, pins, frags), []) =>
+      match firstSome rows (rowViolation run) with
+      | some c => "bad:row_" ++ c
+      | none =>
+        match tableViolation run rows with
+        | some c => "bad:" ++ c
+        | none =>
+          match (if run.cfg.pin then pinViolation rows pins else none) with
+          | some c => "bad:" ++ c
+          | none =>
+            match (if run.cfg.annotate then fragViolation rows frags else none) with
+            | some c => "bad:" ++ c
+            | none =>
+              match plantedViolation run rows with
+              | some c => "bad:" ++ c
+              | none => "ok"
+    | _ => "bad:unparsable_reply"
+  | ["panic"] => "bad:program_panicked"
+  | [e] => "bad:program_failed_" ++ e
+  | _ => "bad:unparsable_reply"
+
 def handle (op : String) (args impl : List String) : Option Reply :=
   match op with
+  | "e2e" => do
+    let run ← Proto.run pRun args
+    pure { model := "spec-only", agree := true, spec := verdict run impl }
   | _ => none
 
 end Sage.C01
